@@ -1517,6 +1517,11 @@ def _read_buffers(
                     ).reshape(shape)
             else:
                 # a "sparse" accessor should be initialized as zeros
+                # nothing in the file backs this count so refuse to allocate
+                # an array that is wildly out of proportion to the data
+                zeros = int(count) * int(per_count) * dtype.itemsize
+                if not 0 <= zeros <= max(2**24, 1024 * sum(len(b) for b in buffers)):
+                    raise ValueError(f"accessor {index} without data has count {count}")
                 access[index] = np.zeros(count * per_count, dtype=dtype).reshape(shape)
 
         # possibly load images and textures into material objects
